@@ -401,7 +401,7 @@ def oracle_fresh(inp):
     return None
 
 
-ORACLES = {'history': oracle_history, 'fresh': oracle_fresh}
+ORACLES = {'history': oracle_history, 'fresh': oracle_fresh, 'downgraded': lambda inp: 'not replayable: %s' % inp}
 
 
 def replay(data):
@@ -420,6 +420,19 @@ def run(ctx):
         'C07', 'Lib.Prog Model.ApiSem Gen.ApiContent Corr.C07', '(map c_name (filter supported api_content), shared_defaults)'))
     parts = txt.split('],')
     supported = set(re.findall(r'"([^"]+)"', parts[0])) if parts else set()
+    # DOWNGRADE RULE: covered operations that the translator refuses in this run (other than SharedMutable) carry no
+    # theorem and no correspondence in this run; the oracle below must then have exercised them (>= MIN_CALLS, no failure)
+    dtxt = A.with_fresh_gen(GENS, ['Corr/C07.vo'], lambda: C.coq_eval(
+        'C07', 'Lib.Prog Model.ApiSem Model.ApiRun Gen.ApiContent Corr.C07',
+        '(map (fun n => (n, match find_cop n with Some o => unsupported_why (c_body o) | None => ["absent"] end)) '
+        '(filter (fun n => negb (is_supported n)) covered))'))
+    downgraded = {}
+    for m in re.finditer(r'\("([a-z_0-9]+)",\s*\[(.*?)\]\)', dtxt, flags=re.S):
+        why = re.findall(r'"((?:[^"]|"")*)"', m.group(2))
+        if not any(w.startswith('SharedMutable') for w in why):
+            downgraded[m.group(1)] = '; '.join(why)[:300]
+    calls_of, failed_ops = {}, set()
+    MIN_CALLS = 30
     all_ops = [n for n in A.public_ops() if n not in A.EXCLUDED]
     covered = sorted(n for n in SPEC if n in all_ops)
     gen_ok = sorted(n for n in covered if n in supported)
@@ -437,12 +450,20 @@ def run(ctx):
             key='Ipmi.__init__:shared-default-session', what=msg, replay={'oracle': 'fresh', 'input': {}})
     nhist, length = (300, 12) if q else (5000, 30)
     opnames = covered
-    for h in range(nhist):
+    extra = []          # additional histories that concentrate on downgraded operations
+    for dop in sorted(downgraded):
+        if dop in SPEC:
+            extra += [dop] * (2 * MIN_CALLS // 6 + 2)
+    for h in range(nhist + len(extra)):
         nconn = rng.choice([1, 2])
         shared = rng.random() < 0.5
         inits = [rand_state(rng) for _ in range(1 if shared else nconn)]
         calls = []
-        focus = rng.sample(opnames, min(len(opnames), rng.choice([3, 6, len(opnames)])))
+        if h >= nhist:
+            dop = extra[h - nhist]
+            focus = [dop, dop] + rng.sample(opnames, min(len(opnames), 4))
+        else:
+            focus = rng.sample(opnames, min(len(opnames), rng.choice([3, 6, len(opnames)])))
         for _ in range(length):
             op = rng.choice(focus)
             calls.append((rng.randrange(nconn), op, SPEC[op]['args'](rng)))
@@ -450,6 +471,10 @@ def run(ctx):
         do_corr = q or h < 600
         problems, conns = run_history(spec, collect if do_corr else None)
         res.evaluations += len(calls)
+        for c in calls:
+            calls_of[c[1]] = calls_of.get(c[1], 0) + 1
+        for key, text, step in problems:
+            failed_ops.add(key.split(':')[0])
         for c in calls:
             D.add((c[1], json.dumps(json_args(c[2]), sort_keys=True)), True, SPEC[c[1]]['kind'])
         for key, text, step in problems:
@@ -476,6 +501,15 @@ def run(ctx):
                     if len(users) == 1:
                         terms.append('chk_bmc %s %s' % (c_store(init), C.c_list([c_exchange(x) for x in itf.log])))
                         meta.append(('bmc-history', h))
+    for dop, why in sorted(downgraded.items()):
+        n = calls_of.get(dop, 0)
+        if n < MIN_CALLS or dop in failed_ops:
+            key = 'downgraded-without-oracle:%s' % dop
+            fails.setdefault(key, C.Violation(
+                key=key, what='%s is refused by the translator in this run (%s): no theorem is claimed for it, and the '
+                'history oracle exercised it only %d times%s' % (dop, why, n, ' and found a failure' if dop in failed_ops else ''),
+                replay={'oracle': 'downgraded', 'input': {'op': dop, 'reason': why, 'calls': n}}, found_input=False))
+    res.oracle_failures = list(fails.values())
     failing, errors = A.with_fresh_gen(GENS, ['Corr/C07.vo'], lambda: C.coq_cases(
         'C07', 'Lib.Prog Model.ApiSem Model.Bmc Gen.ApiContent Corr.C07', terms, shard=250))
     res.mismatches = [{'case': meta[i], 'term': terms[i][:700]} for i in failing[:50]]
@@ -492,6 +526,8 @@ def run(ctx):
         'ops_generated_count': len(gen_ok),
         'ops_translated_without_reference_semantics': sorted(n for n in supported if n in all_ops and n not in SPEC),
         'ops_hand': sorted(n for n in HAND_OPS if n in gen_ok),
+        'ops_downgraded': downgraded,
+        'ops_downgraded_calls': {k: calls_of.get(k, 0) for k in downgraded},
         'ops_refused_by_translator': sorted(n for n in covered if n not in supported),
         'ops_uncovered': uncovered,
         'ops_uncovered_count': len(uncovered),
